@@ -30,7 +30,7 @@ type c04Config struct {
 	Caps       []string `json:"caps"`
 	CapsTLS    []string `json:"caps_tls,omitempty"`          // capabilities after STARTTLS (nil: same as Caps minus STARTTLS)
 	NoCapsTLS  bool     `json:"no_caps_after_tls,omitempty"` // the EHLO reply after STARTTLS is the bare greeting line (no extension at all)
-	TLS        string   `json:"tls"`                         // none | opportunistic | mandatory
+	TLS        string   `json:"tls"`                         // none | opportunistic | mandatory | implicit
 	Auth       string   `json:"auth,omitempty"`              // "" | PLAIN | LOGIN
 	RefuseEHLO bool     `json:"refuse_ehlo,omitempty"`
 	DSN        string   `json:"dsn,omitempty"` // "" | default | hdrs-never | full-success-delay
@@ -109,6 +109,9 @@ func runC04Case(r *ev.Run, c c04Case) c04Result {
 	switch cfg.TLS {
 	case "none":
 		opts = append(opts, mail.WithTLSPolicy(mail.NoTLS))
+	case "implicit":
+		opts = append(opts, mail.WithSSL())
+		farm.ImplicitTLS = gen.ClientTLS(c04Host, 0, 0)
 	case "opportunistic":
 		opts = append(opts, mail.WithTLSPolicy(mail.TLSOpportunistic))
 	default:
@@ -326,6 +329,7 @@ func c04Configs(thorough bool) []c04Config {
 		{Name: "starttls-mandatory", Caps: []string{"STARTTLS", "8BITMIME"}, CapsTLS: []string{"8BITMIME", "DSN"}, TLS: "mandatory", DSN: "hdrs-never", Msgs: []c04Msg{m(qp, 1)}, MaxDev: 1},
 		{Name: "auth-plain", Caps: []string{"AUTH PLAIN LOGIN", "8BITMIME"}, TLS: "none", Auth: "PLAIN", Msgs: []c04Msg{m(qp, 1), m(qp, 1)}, MaxDev: 1},
 		{Name: "auth-login", Caps: []string{"AUTH LOGIN", "DSN"}, TLS: "none", Auth: "LOGIN", Msgs: []c04Msg{m(qp, 2)}, MaxDev: 1},
+		{Name: "implicit-tls-2x1", Caps: []string{"8BITMIME", "DSN", "AUTH PLAIN"}, TLS: "implicit", Auth: "PLAIN", DSN: "default", Msgs: []c04Msg{m(qp, 1), m(e8, 1)}, MaxDev: 1},
 		{Name: "multiline-2x2", Caps: all, TLS: "none", Multiline: true, Msgs: []c04Msg{m(qp, 2), m(e8, 2)}, MaxDev: 1},
 		{Name: "multiline-starttls-auth", Caps: []string{"STARTTLS", "AUTH PLAIN", "8BITMIME"}, CapsTLS: []string{"AUTH PLAIN", "DSN"}, TLS: "mandatory", Auth: "PLAIN", Multiline: true, DSN: "default", Msgs: []c04Msg{m(qp, 1), m(qp, 1)}, MaxDev: 1},
 	}
